@@ -56,13 +56,13 @@ def _files(fmt):
         return bytes((i * 31 + len(tag) * 7 + ord(tag[0])) % 256 for i in range(n))
     if fmt == "raw":
         return {"a.bin": blob("a", 300), "d1": None, "d1/b.bin": blob("b", 70000), "d1/d2": None, "d1/d2/c.txt": b"hello\n",
-                "d1/empty.dat": b"", "e": None}
+                "d1/empty.dat": b"", "e": None, "d1/clip_002..wav": blob("w", 90)}  # '..' inside a file name is legal
     if fmt == "zip":
-        return {"top.bin": blob("t", 500), "k": None, "k/x.bin": blob("x", 66000), "k/y.txt": b"y"}
+        return {"top.bin": blob("t", 500), "k": None, "k/x.bin": blob("x", 66000), "k/y.txt": b"y", "k/Dr..Who_s01.wav": blob("d", 50)}
     if fmt == "zips":
         return {"batch_0.zip": {"p/one.bin": blob("1", 400), "two.bin": blob("2", 10)},
                 "batch_1.zip": {"p/three.bin": blob("3", 66000)},
-                "batch_2.zip": {"q/r/four.txt": b"4444"}}
+                "batch_2.zip": {"q/r/four.txt": b"4444", "q/take..1.wav": blob("k", 120), "...hidden": b"h"}}
     raise ValueError(fmt)
 
 
@@ -296,6 +296,11 @@ def gen_cases(run):
     for direction in ("raw->zips", "zips->raw"):
         if mine():
             yield {"scn": {"fn": "folder", "fmt": "raw" if direction.startswith("raw") else "zips", "rel": None, "parent": True}, "kills": [], "same_process": direction}
+    # two DIFFERENT datasets copied one after the other by one process (train / test): the finished first copy is never redone or touched
+    for fmt in ("zips", "zip", "raw"):
+        for fn in ("folder", "imagefolder"):
+            if mine():
+                yield {"scn": {"fn": fn, "fmt": fmt, "rel": None, "parent": True}, "kills": [], "same_process": "A-then-B"}
     if run.tier == "quick":
         # one uninterrupted folder-of-zips copy through joblib workers (3 zips on 2 workers: more jobs than workers, not divisible)
         wscn = {"fn": "folder", "fmt": "zips", "rel": None, "parent": True}
@@ -556,7 +561,64 @@ def _run_strace(run, spec):
 
 
 # ------------------------------------------------------------------------------------------------ same-process sequences
+def _run_two_datasets(run, spec):
+    """dataset A, then another dataset B (same format, other content), then A again - all in one process"""
+    scn = spec["scn"]
+    root = Path(tempfile.mkdtemp(prefix="kdv_c20q_"))
+    try:
+        exp_a = _prepare(root, scn)
+        g, l, rel, dst_a = _paths(root, scn)
+        # dataset B: same layout under another name, every payload byte-reversed and prefixed (so A and B never agree on a file)
+        scn_b = dict(scn, rel="ds_second")
+        exp_b0 = _make_source(root, scn_b)
+        gb = root / "global"
+        src_b = gb / "ds_second"
+        if scn["fmt"] == "raw":
+            for q in sorted(src_b.rglob("*")):
+                if q.is_file() and not q.is_symlink():
+                    q.write_bytes(b"B:" + q.read_bytes()[::-1])
+            exp_b = {k: (v if v is None or k.endswith("vocab_link.bin") else b"B:" + v[::-1]) for k, v in exp_b0.items()}
+        else:
+            exp_b = exp_b0  # zip sources: identical member content is fine, what matters is that A's files are not rewritten
+        dst_b = root / "local" / "ds_second"
+        fnname = scn["fn"]
+        call_a = {"fn": fnname, "g": str(g), "l": str(l), "rel": None, "workers": 0}
+        call_b = {"fn": fnname, "g": str(gb), "l": str(root / "local"), "rel": "ds_second", "workers": 0}
+        res = _send({"root": str(root), "seq": [{"call": call_a}, {"stat": str(dst_a)}, {"call": call_b}, {"stat": str(dst_a)}, {"call": call_a}, {"stat": str(dst_a)}]})
+        run.count("fs_events_observed", len(res["events"]))
+        run.cover("same-process", "A-then-B", scn["fn"], scn["fmt"])
+        what = f"{scn['fn']} copy of dataset A ({scn['fmt']}), then of another dataset B, then of A again, all in one process"
+        if res["status"] != "returned":
+            run.count("calls_raised")
+            notes = run.notes.setdefault("raised_examples", [])
+            if len(notes) < 5:
+                notes.append(f"{what}: {str(res.get('err'))[:200]}")
+            return
+        run.count("same_process_sequences")
+        r_a, st1, r_b, st2, r_a2, st3 = res["result"]["results"]
+        for name, d, exp in (("A", dst_a, exp_a), ("B", dst_b, exp_b)):
+            snap = _snapshot(d)
+            body = {a: b for a, b in (snap or {}).items() if a not in _NOT_DATA}
+            if body != exp:
+                run.violation("returns-on-incomplete-copy:same-process-sequence", f"{what}: the destination of {name} is not a complete copy of its source "
+                                                                                 f"(missing {sorted(set(exp) - set(body))[:4]}, unexpected {sorted(set(body) - set(exp))[:4]}, "
+                                                                                 f"different {sorted(k for k in set(body) & set(exp) if body[k] != exp[k])[:4]})")
+                return
+        if st1["stat"] != st2["stat"] or st2["stat"] != st3["stat"]:
+            changed = sorted(k for k in set(st1["stat"]) | set(st3["stat"]) if st1["stat"].get(k) != st2["stat"].get(k) or st2["stat"].get(k) != st3["stat"].get(k))
+            run.violation("completed-copy-touched:same-process-sequence", f"{what}: files of the finished copy of A were re-created or rewritten by a later call "
+                                                                         f"(inode / mtime / size changed for {changed[:5]})")
+            return
+        if not r_a.get("was_copied") or not r_b.get("was_copied") or r_a2.get("was_copied"):
+            run.violation("result:was_copied", f"{what}: results {r_a}, {r_b}, {r_a2} (expected copied, copied, not copied)")
+            return
+    finally:
+        shutil.rmtree(root, ignore_errors=True)
+
+
 def _run_same_process(run, spec):
+    if spec["same_process"] == "A-then-B":
+        return _run_two_datasets(run, spec)
     scn = spec["scn"]
     root = Path(tempfile.mkdtemp(prefix="kdv_c20p_"))
     try:
